@@ -55,6 +55,7 @@ type dischargeOpts struct {
 
 // discharge runs the solver race on every obligation.
 func discharge(fx *FnExec, obls []*Obligation, opt dischargeOpts) {
+	defer func() { fx.c.noPrune = false }()
 	type job struct {
 		o      *Obligation
 		script string
@@ -66,6 +67,7 @@ func discharge(fx *FnExec, obls []*Obligation, opt dischargeOpts) {
 	c := fx.c
 	rngMemo := map[*Term]bool{}
 	for _, o := range obls {
+		c.noPrune = o.Cover
 		goal := c.Implies(o.PC, o.Goal)
 		if goal.IsTrue() {
 			o.Status, o.Backend = "unsat", "simplifier"
